@@ -156,3 +156,73 @@ def _strip(e):
     while isinstance(e, (Named, Ref, Deref, Cast)):
         e = e.x
     return e
+
+
+def eval_pred(body, env, roles=None, max_steps=500):
+    """Follow the unique path the environment determines through a small pure body and return
+    the final value assigned to the return place (int/bool), or None if some branch or the
+    returned value depends on anything outside env. Calls on the path make the result None
+    unless they are value-preserving wrappers."""
+    b = 0
+    ret = None
+    known_ret = False
+    for _ in range(max_steps):
+        blk = body.blocks[b]
+        for s in blk["stmts"]:
+            if s["k"] == "assign" and s["place"]["l"] == 0 and not s["place"]["p"]:
+                ret = eval_expr(body.expr_of_rvalue(s["rv"]), env, roles)
+                known_ret = True
+        t = blk["term"]
+        k = t["k"]
+        if k == "return":
+            return ret if known_ret else None
+        if k == "goto":
+            b = t["t"]
+        elif k == "switch":
+            v = eval_expr(body.expr_of_operand(t["discr"]), env, roles)
+            if v is None:
+                return None
+            tgt = None
+            for val, tb in t["arms"]:
+                if val == v:
+                    tgt = tb
+            b = tgt if tgt is not None else t["otherwise"]
+        elif k == "call":
+            if t["dest"]["l"] == 0 and not t["dest"]["p"]:
+                ret = eval_expr(body.expr_of_call(t), env, roles)
+                known_ret = True
+                if ret is None:
+                    return None
+            if "t" not in t:
+                return None
+            b = t["t"]
+        elif k in ("assert", "drop"):
+            b = t["t"]
+        else:
+            return None
+    return None
+
+
+def pred_table(body, arg_local, domain=range(256), roles=None):
+    """{value: result} of a one-argument predicate for every value of the domain. The
+    argument may be passed by value or by reference (`x`, `*x`)."""
+    from mir import Var
+    out = {}
+    name = body.var_names.get(arg_local) or ("arg%d" % arg_local)
+    for v in domain:
+        env = _ArgEnv(arg_local, v)
+        out[v] = eval_pred(body, env, roles)
+    return out
+
+
+class _ArgEnv(dict):
+    """Environment binding one argument local (by value or behind one reference)."""
+
+    def __init__(self, local, value):
+        super().__init__()
+        self.local = local
+        self.value = value
+        self["arg%d" % local] = value
+
+    def __contains__(self, k):
+        return k == "arg%d" % self.local
